@@ -660,9 +660,9 @@ theorem lineOk_congr {c c2 : Ctx} {r : W} (h : c2.lastColumn = c.lastColumn) (hl
 /-- a string the writer can handle: no NUL, no CR -/
 def strOk (s : Str) : Prop := (0 : CU) ∉ s ∧ (13 : CU) ∉ s
 
-/-- a number text: additionally one line of at most 2048 BMP units (true of every number the API parses or formats,
-    apart from the length — open finding F-number-overlong) -/
-def numbOk (t : Str) : Prop := strOk t ∧ (10 : CU) ∉ t ∧ t.length ≤ LINE ∧ countChar32 t = t.length
+/-- a number text: additionally one line of BMP units (true of every number the API parses or formats); its length is
+    not restricted — a text longer than a line is written as a folded text field (da3325d) -/
+def numbOk (t : Str) : Prop := strOk t ∧ (10 : CU) ∉ t ∧ countChar32 t = t.length
 
 /-- a data name: one line of at most 2048 units -/
 def nameL (n : Str) : Prop := (10 : CU) ∉ n ∧ n.length ≤ LINE
@@ -673,7 +673,10 @@ theorem lineOk_writeNumb (c : Ctx) (t : Str) (q : Bool) (ht : numbOk t) : LineOk
   | true => exact lineOk_writeChar c t true true ht.1.1 ht.1.2
   | false =>
     simp only [Bool.false_eq_true, ↓reduceIte]
-    have L := lineOk_uliteral c t none true ht.2.1 ht.2.2.1 (Or.inl rfl) (fun _ => ht.2.2.2)
+    by_cases hlong : t.length > LINE
+    · rw [if_pos hlong]; exact lineOk_writeChar c t false true ht.1.1 ht.1.2
+    rw [if_neg hlong]
+    have L := lineOk_uliteral c t none true ht.2.1 (by omega) (Or.inl rfl) (fun _ => ht.2.2)
     cases hw : writeULiteral c t none true with
     | none => exact lineOk_error _ _
     | some r =>
